@@ -1,5 +1,7 @@
 import DoltVerif.Lemmas.BinlogCells
 import DoltVerif.Lemmas.BinlogRows
+import DoltVerif.Lemmas.BinlogTime
+import DoltVerif.Lemmas.BinlogDecimalRT
 /-!
 C40 — Binlog events encode values the way MySQL replicas decode them.
 
@@ -9,14 +11,17 @@ serializers (tied by `Tie/Binlog.lean` and the `binlog` correspondence harness),
 byte + metadata of the TableMap event).  Helper lemmas live in `Lemmas/Binlog*.lean`.
 
 PROVED here, for all values of the column's domain and any continuation `r` (framing):
-integers (all widths/signs), FLOAT/DOUBLE bit patterns, YEAR 1901‥2155, DATE, DATETIME(0‥6),
-TIMESTAMP(0‥6), BIT(1‥64), ENUM, SET(1‥64), VARCHAR/VARBINARY, CHAR/BINARY (incl. the 10-bit
+integers (all widths/signs), FLOAT/DOUBLE bit patterns, YEAR (0000 and 1901‥2155), DATE, DATETIME(0‥6),
+TIMESTAMP(0‥6), TIME, DECIMAL, BIT(1‥64), ENUM, SET(1‥64), VARCHAR/VARBINARY, CHAR/BINARY (incl. the 10-bit
 length metadata), all BLOB/TEXT sizes, the JSON/GEOMETRY length prefix; the NULL bitmap for any
 column count; unique parseability of a whole row image.
-REFUTED (witnesses below, each replayed on the real code by the harness): YEAR 0000, negative TIME
-with a fraction and seconds = 59, DECIMAL(p,p).
-NOT PROVED (statement kept as `…_full`, compared differentially only): the TIME2 and NEWDECIMAL
-round trips outside the refuted points; binary JSON bodies.
+REFUTED (witnesses below, each replayed on the real code by the harness): negative TIME with a
+fraction and seconds = 59, DECIMAL(p,p).  (YEAR 0000 and JSON key lengths ≥ 256 were refuted in the
+first round and are repaired in /repo: e60c6b5, 22b8e06; both are now part of the proved statement.)
+TIME (all values except the refuted seconds = 59 carry point, `Lemmas/BinlogTime`) and DECIMAL(p,s)
+for every 1 ≤ p ≤ 65, s ≤ 30, s < p (`Lemmas/BinlogDecimal*`: digit groups of nine, leftover
+groups, sign-bit flip, inversion of negative values) are proved too.  Only binary JSON bodies remain
+compared-not-proved.
 -/
 namespace DoltVerif.C40
 open DoltVerif.Binlog
@@ -27,15 +32,17 @@ instance {ε α : Type} [DecidableEq ε] [DecidableEq α] : DecidableEq (Except 
   | .ok _, .error _ => isFalse (fun e => by cases e)
   | .error _, .ok _ => isFalse (fun e => by cases e)
 
-/-- column types whose round trip is proved in this file -/
+/-- column types whose round trip is proved in this file: all of them, DECIMAL with at least one
+integer digit -/
 def Proved : ColType → Prop
-  | .time => False
-  | .decimal _ _ => False
+  | .decimal p s => s < p     -- DECIMAL(p,p) is the refuted point (`decimal_p_eq_s_witness`)
   | _ => True
 
-/-- a stored value of the column's domain that is not the YEAR 0000 defect point -/
-def Good (t : ColType) (c : Cell) : Prop :=
-  inDomain t c = true ∧ ¬ (t = .year ∧ c = .int 0)
+/-- a stored value of the column's domain (YEAR 0000 included since /repo e60c6b5) that is not the
+TIME seconds-carry defect point (negative, fractional, seconds = 59) -/
+@[reducible] def Good (t : ColType) (c : Cell) : Prop :=
+  inDomain t c = true ∧
+  ∀ us : Int, t = .time → c = .time us → ¬ (us < 0 ∧ us.natAbs % 1000000 > 0 ∧ us.natAbs / 1000000 % 60 = 59)
 
 /-- **decode ∘ encode = id, with framing**: for every proved column type and every value of its
 domain, a replica that reads the TableMap's (type byte, metadata) and then the cell bytes followed
@@ -43,11 +50,22 @@ by anything gets the stored value back and stops exactly at the end of the cell.
 theorem decode_encode_partial (t : ColType) (c : Cell) (hp : Proved t) (hg : Good t c)
     (b r : Bytes) (he : encode t c = .ok b) :
     decodeCell (signedOf t) (colMeta t).1 (colMeta t).2 (b ++ r) = some (c, r) := by
-  obtain ⟨hd, hy⟩ := hg
+  obtain ⟨hd, hgt⟩ := hg
   have hne : (!inDomain t c) = false := by simp [hd]
   cases t with
-  | time => exact absurd hp id
-  | decimal p s => exact absurd hp id
+  | time =>
+    cases c <;> simp [inDomain] at hd
+    rename_i us
+    simp [encode, inDomain, hd] at he
+    subst he
+    exact decode_time us r hd (hgt us rfl rfl)
+  | decimal p s =>
+    cases c <;> simp [inDomain] at hd
+    rename_i neg u
+    simp only [encode, inDomain, hd, decide_true, Bool.not_true, Bool.false_eq_true, if_false] at he
+    obtain ⟨h1, h2, h3, _, h5⟩ := hd
+    have := decode_decimal p s neg u b r h1 h2 h3 hp h5 he
+    simpa [colMeta, signedOf, tNewDecimal] using this
   | int w sg =>
     cases c <;> simp [inDomain] at hd
     rename_i v
@@ -69,13 +87,9 @@ theorem decode_encode_partial (t : ColType) (c : Cell) (hp : Proved t) (hg : Goo
   | year =>
     cases c <;> simp [inDomain] at hd
     rename_i v
-    have hv : 1901 ≤ v ∧ v ≤ 2155 := by
-      rcases hd with h0 | h1
-      · exact absurd ⟨rfl, by rw [h0]⟩ hy
-      · exact h1
     simp [encode, inDomain, hd] at he
     subst he
-    exact decode_year v r hv
+    exact decode_year v r hd
   | date =>
     cases c <;> simp [inDomain] at hd
     rename_i y m d
@@ -151,10 +165,17 @@ theorem decode_encode_partial (t : ColType) (c : Cell) (hp : Proved t) (hg : Goo
     simpa [colMeta, signedOf, List.append_assoc] using this
 
 /-- non-vacuity: a negative MEDIUMINT, a DATETIME(3) and a 300-byte-max VARCHAR are `Good`. -/
-example : Good (.int .w3 true) (.int (-8388608)) ∧ Proved (.int .w3 true) := by
-  refine ⟨⟨by decide, by simp⟩, trivial⟩
-example : Good (.datetime 3) (.datetime 9999 12 31 23 59 59 999000) := ⟨by decide, by simp⟩
-example : Good (.varchar 300) (.bytes [1, 2, 3]) := ⟨by decide, by simp⟩
+example : Good (.int .w3 true) (.int (-8388608)) ∧ Proved (.int .w3 true) :=
+  ⟨⟨by decide, fun _ h => by cases h⟩, trivial⟩
+example : Good (.datetime 3) (.datetime 9999 12 31 23 59 59 999000) := ⟨by decide, fun _ h => by cases h⟩
+example : Good (.varchar 300) (.bytes [1, 2, 3]) := ⟨by decide, fun _ h => by cases h⟩
+example : Good .year (.int 0) ∧ encode .year (.int 0) = .ok [0] := ⟨⟨by decide, fun _ h => by cases h⟩, by decide⟩
+/-- DECIMAL(65,30), all nines, negative: in the proved domain -/
+example : Good (.decimal 65 30) (.decimal true (10 ^ 65 - 1)) ∧ Proved (.decimal 65 30) :=
+  ⟨⟨by decide, fun _ h => by cases h⟩, show 30 < 65 by decide⟩
+/-- a negative fractional TIME with seconds = 58 is `Good` (only seconds = 59 is excluded) -/
+example : Good .time (.time (-58500000)) :=
+  ⟨by decide, fun us _ h => by cases h; decide⟩
 
 /-- the property as stated, for every column type and every stored value -/
 def decode_encode_full : Prop :=
@@ -165,29 +186,24 @@ def decode_encode_full : Prop :=
 def serializable_full : Prop :=
   ∀ (t : ColType) (c : Cell), inDomain t c = true → ∃ b, encode t c = .ok b
 
-/-- the TIME2 / NEWDECIMAL round trips away from the defect points (not proved; the two decoders and
-the stored value are compared on every harness run) -/
-def time_decimal_roundtrip_full : Prop :=
-  (∀ (us : Int) (r : Bytes), inDomain .time (.time us) = true →
-      ¬ (us < 0 ∧ us.natAbs % 1000000 > 0 ∧ us.natAbs / 1000000 % 60 = 59) →
-      decodeCell false tTime2 6 (encTime us ++ r) = some (.time us, r)) ∧
-  (∀ (p s : Nat) (neg : Bool) (u : Nat) (b r : Bytes), inDomain (.decimal p s) (.decimal neg u) = true → s < p →
-      encDecimal p s neg u = .ok b →
-      decodeCell false tNewDecimal (colMeta (.decimal p s)).2 (b ++ r) = some (.decimal neg u, r))
+/-- every value of a proved column type is serializable (no serializer error) -/
+theorem serializable_partial (p s : Nat) (neg : Bool) (u : Nat) (hs : s < p)
+    (hd : inDomain (.decimal p s) (.decimal neg u) = true) :
+    ∃ b, encode (.decimal p s) (.decimal neg u) = .ok b := by
+  have hd' := hd
+  simp [inDomain] at hd'
+  refine ⟨decimalSign neg (bufOf p s u), ?_⟩
+  simp only [encode, hd, Bool.not_true, Bool.false_eq_true, if_false]
+  exact encDecimal_eq p s neg u hs hd'.2.2.2.2
 
-/-- WITNESS 1 (YEAR 0000): dolt emits byte 0x94, which a replica reads as 2048. -/
-theorem year_zero_witness :
-    inDomain .year (.int 0) = true ∧ encode .year (.int 0) = .ok [0x94] ∧
-    decodeCell false tYear 0 [0x94] = some (.int 2048, []) := by decide +kernel
-
-/-- WITNESS 2 (TIME '-00:00:59.5'): the seconds carry makes a replica read '-00:00:63.5'. -/
+/-- WITNESS 1 (TIME '-00:00:59.5'): the seconds carry makes a replica read '-00:00:63.5'. -/
 theorem time_seconds_carry_witness :
     inDomain .time (.time (-59500000)) = true ∧
     encode .time (.time (-59500000)) = .ok [0x7f, 0xff, 0xc0, 0xf8, 0x5e, 0xe0] ∧
     decodeCell false tTime2 6 [0x7f, 0xff, 0xc0, 0xf8, 0x5e, 0xe0] = some (.time (-63500000), []) := by
   decide +kernel
 
-/-- WITNESS 3 (DECIMAL(2,2) value 0.12): the serializer fails, no event can be emitted. -/
+/-- WITNESS 2 (DECIMAL(2,2) value 0.12): the serializer fails, no event can be emitted. -/
 theorem decimal_p_eq_s_witness :
     inDomain (.decimal 2 2) (.decimal false 12) = true ∧
     encode (.decimal 2 2) (.decimal false 12) = .error .remaining := by
@@ -195,11 +211,22 @@ theorem decimal_p_eq_s_witness :
 
 theorem decode_encode_full_refuted : ¬ decode_encode_full := by
   intro h
-  have := h .year (.int 0) [0x94] [] year_zero_witness.1 year_zero_witness.2.1
-  rw [show ([0x94] : Bytes) ++ [] = [0x94] from rfl, show signedOf .year = false from rfl,
-    show (colMeta .year).1 = tYear from rfl, show (colMeta .year).2 = 0 from rfl, year_zero_witness.2.2] at this
+  have := h .time (.time (-59500000)) [0x7f, 0xff, 0xc0, 0xf8, 0x5e, 0xe0] []
+    time_seconds_carry_witness.1 time_seconds_carry_witness.2.1
+  rw [show ([0x7f, 0xff, 0xc0, 0xf8, 0x5e, 0xe0] : Bytes) ++ [] = [0x7f, 0xff, 0xc0, 0xf8, 0x5e, 0xe0] from rfl,
+    show signedOf .time = false from rfl, show (colMeta .time).1 = tTime2 from rfl,
+    show (colMeta .time).2 = 6 from rfl, time_seconds_carry_witness.2.2] at this
   revert this
   decide
+
+/-- **JSON object key lengths** (the point repaired by /repo 22b8e06): every key entry — offset in
+the small or large format and a key length up to 65535 bytes — is read back by a replica. -/
+theorem json_key_entry_roundtrip (large : Bool) (off len : Nat) (r : Bytes)
+    (hoff : off < (if large then 2 ^ 32 else 2 ^ 16)) (hlen : len < 65536) :
+    readKeyEntry large (jsonKeyEntry off len large ++ r) = some ((off, len), r) :=
+  readKeyEntry_jsonKeyEntry large off len r hoff hlen
+
+example : jsonKeyEntry 11 300 false = [11, 0, 0x2c, 0x01] := by decide
 
 theorem serializable_full_refuted : ¬ serializable_full := by
   intro h
